@@ -1,12 +1,14 @@
 package main
 
 import (
+	"bytes"
 	"context"
 	"encoding/hex"
 	"encoding/json"
 	"errors"
 	"fmt"
 	"math/rand"
+	"mime/multipart"
 	"os"
 	"os/exec"
 	"sort"
@@ -15,8 +17,11 @@ import (
 	"time"
 	"unicode/utf8"
 
+	"github.com/siglens/siglens/pkg/alerts/alertsHandler"
+	"github.com/siglens/siglens/pkg/alerts/alertutils"
 	"github.com/siglens/siglens/pkg/config"
 	"github.com/siglens/siglens/pkg/dashboards"
+	"github.com/siglens/siglens/pkg/lookups"
 	usq "github.com/siglens/siglens/pkg/usersavedqueries"
 	vtable "github.com/siglens/siglens/pkg/virtualtable"
 	"github.com/valyala/fasthttp"
@@ -130,6 +135,7 @@ type kvRun struct {
 	res     *Result
 	seen    map[string]bool
 	lastOp  kvOp
+	lastTok string
 	afterRe bool
 	tainted [3]bool // a tenant whose reads already differed once is not audited further (no cascades)
 }
@@ -151,7 +157,7 @@ func kvShow(s string) string {
 }
 
 // kvDiff classifies the difference between what the reads must return (want) and what they return (got)
-func kvDiff(want, got map[string]string) (class, msg string) {
+func kvDiff(want, got map[string]string) (class, key, msg string) {
 	var ks []string
 	for k := range want {
 		ks = append(ks, k)
@@ -167,14 +173,14 @@ func kvDiff(want, got map[string]string) (class, msg string) {
 		g, okg := got[k]
 		switch {
 		case okw && !okg:
-			return "lost", fmt.Sprintf("%s was written (value %s) and is not returned", kvShow(k), kvShow(w))
+			return "lost", k, fmt.Sprintf("%s was written (value %s) and is not returned", kvShow(k), kvShow(w))
 		case !okw && okg:
-			return "ghost", fmt.Sprintf("%s is returned (value %s) although it was deleted / never written", kvShow(k), kvShow(g))
+			return "ghost", k, fmt.Sprintf("%s is returned (value %s) although it was deleted / never written", kvShow(k), kvShow(g))
 		case w != g:
-			return "stale", fmt.Sprintf("%s: last written %s, read %s", kvShow(k), kvShow(w), kvShow(g))
+			return "stale", k, fmt.Sprintf("%s: last written %s, read %s", kvShow(k), kvShow(w), kvShow(g))
 		}
 	}
-	return "", ""
+	return "", "", ""
 }
 
 // audit: every tenant is read back and compared with the shadow (the property statement itself)
@@ -190,15 +196,19 @@ func (r *kvRun) audit(st kvStore, when string) {
 			continue
 		}
 		want := st.shadowOf(t)
-		class, msg := kvDiff(want, got)
+		class, key, msg := kvDiff(want, got)
 		if class == "" {
 			continue
 		}
 		switch {
+		case class == "ghost" && strings.HasPrefix(key, kvAliasMemView+"(no index)"):
+			class = "alias-listed-without-index" // the alias' inner map stays behind, empty
 		case r.afterRe:
 			class += "-after-restart"
 		case r.lastOp.form != 'R' && r.lastOp.t != t:
 			class = "other-tenant-disturbed"
+		case r.lastTok != "ok" && !strings.HasPrefix(r.lastTok, "ok:") && strings.ContainsRune("cudrfx", rune(r.lastOp.kind)):
+			class = "failed-op-changes-state" // the operation was refused, yet what the tenant reads changed
 		case class == "lost" && (r.lastOp.kind == 'c' || r.lastOp.kind == 'u' || r.lastOp.kind == 'f'):
 			class = "ok-but-not-stored"
 		case class == "ghost" && (r.lastOp.kind == 'd' || r.lastOp.kind == 'x'):
@@ -239,6 +249,10 @@ func kvNewStore(name string) kvStore {
 		return &kvAlias{}
 	case "dash":
 		return &kvDash{}
+	case "contact":
+		return &kvContact{}
+	case "lookup":
+		return &kvLookup{}
 	}
 	return nil
 }
@@ -295,6 +309,7 @@ func execKV(line string) Result {
 		}
 		tenants[op.t] = true
 		tok := st.apply(op)
+		run.lastTok = tok
 		toks = append(toks, tok)
 		switch op.kind {
 		case 'c', 'u', 'r', 'd', 'f', 'x', 'v':
@@ -423,7 +438,7 @@ var kvVals = []string{"v1", "v2", "v3", "", " ", "* | stats count", "ünï", "{\
 func kvPick(r *rand.Rand, pool []string) string { return pool[r.Intn(len(pool))] }
 
 func genKV(r *rand.Rand, n int, tier string) []string {
-	stores := []string{"usq", "alias", "dash"}
+	stores := []string{"usq", "alias", "dash", "contact", "lookup"}
 	var out []string
 	for i := 0; i < n; i++ {
 		store := stores[i%len(stores)]
@@ -439,6 +454,14 @@ func genKV(r *rand.Rand, n int, tier string) []string {
 		}
 		if store == "dash" {
 			out = append(out, genDashLine(r))
+			continue
+		}
+		if store == "contact" {
+			out = append(out, genContactLine(r))
+			continue
+		}
+		if store == "lookup" {
+			out = append(out, genLookupLine(r))
 			continue
 		}
 		out = append(out, genKVLine(r, store))
@@ -1271,6 +1294,8 @@ func (s *kvDash) apply(op kvOp) string {
 		}
 		if ow := s.owner(op.id); ow >= 0 && ow != op.t {
 			kvCurRun.fail("foreign-tenant-read", fmt.Sprintf("getDashboard(#%d) asked by org %d returns the dashboard of org %d (details files are addressed by id only)", op.id, org, kvOrgs[ow]))
+		} else if ow < 0 && !kvCurRun.tainted[0] && !kvCurRun.tainted[1] && !kvCurRun.tainted[2] {
+			kvCurRun.fail("survives-delete", fmt.Sprintf("getDashboard(#%d) returns a dashboard that no org holds (deleted, or never created)", op.id))
 		}
 		name, _ := d["name"].(string)
 		desc, _ := d["description"].(string)
@@ -1421,7 +1446,7 @@ func genDashLine(r *rand.Rand) string {
 				id = 1
 			}
 			mv := []string{"", "", at()}[r.Intn(3)]
-			if mv != "" && id < len(objs) && objs[id].folder && r.Intn(12) != 0 {
+			if mv != "" && id < len(objs) && objs[id].folder && r.Intn(40) != 0 {
 				mv = "" // moving a FOLDER id through the dashboard API can hang the request (see kvDashRisky): keep it rare
 			}
 			ops = append(ops, fmt.Sprintf("u%d.%d=%s:%s%s", t, id, name, kvHex(kvPick(r, kvVals)), mv))
@@ -1446,4 +1471,511 @@ func genDashLine(r *rand.Rand) string {
 		}
 	}
 	return "kv dash " + strings.Join(ops, " ")
+}
+
+// ---------------------------------------------------------------- contact points (sqlite / gorm)
+
+// kvContact drives the contact-point methods of pkg/alerts/alertsqlite through the alertsHandler database
+// object (what the HTTP handlers call).  Ids are numbers: n = the n-th contact created by the line.
+//   c<t>.<name>=<v> CreateContact     u<t>.<id>=<name>:<v> UpdateContactPoint (OrgId = the caller's org)
+//   d<t>.<id> DeleteContactPoint      l<t> GetAllContactPoints       R close + reopen siglens.db
+// The value v is a comma-separated list: PagerDuty = v, Slack = one {channel_id: part, slack_token: "tok-"+part}
+// per non-empty part.
+type kvContactObj struct {
+	name, v string
+}
+
+type kvContact struct {
+	uuid      []string // number-1 → contact id
+	num       map[string]int
+	shadow [3]map[int]*kvContactObj
+}
+
+func (s *kvContact) parse(tok string) (kvOp, bool) {
+	if tok == "R" {
+		return kvOp{kind: 'R', form: 'R'}, true
+	}
+	if len(tok) == 2 && tok[0] == 'l' {
+		if tok[1] < '0' || tok[1] > '2' {
+			return kvOp{}, false
+		}
+		return kvOp{kind: 'l', t: int(tok[1] - '0'), form: 'l'}, true
+	}
+	if len(tok) < 3 || tok[1] < '0' || tok[1] > '2' || tok[2] != '.' {
+		return kvOp{}, false
+	}
+	op := kvOp{kind: tok[0], t: int(tok[1] - '0'), pid: -1}
+	rest := tok[3:]
+	var ok bool
+	switch op.kind {
+	case 'c':
+		k, v, ok2 := kvSplit1(rest, "=")
+		if !ok2 {
+			return kvOp{}, false
+		}
+		if op.k, ok = kvHexLower(k); !ok {
+			return kvOp{}, false
+		}
+		if op.v, ok = kvHexLower(v); !ok {
+			return kvOp{}, false
+		}
+	case 'u':
+		ids, nv, ok2 := kvSplit1(rest, "=")
+		k, v, ok3 := kvSplit1(nv, ":")
+		id, ok4 := kvDec(ids)
+		if !ok2 || !ok3 || !ok4 || id == 0 {
+			return kvOp{}, false
+		}
+		op.id = id
+		if op.k, ok = kvHexLower(k); !ok {
+			return kvOp{}, false
+		}
+		if op.v, ok = kvHexLower(v); !ok {
+			return kvOp{}, false
+		}
+	case 'd':
+		if op.id, ok = kvDec(rest); !ok || op.id == 0 {
+			return kvOp{}, false
+		}
+	default:
+		return kvOp{}, false
+	}
+	return op, true
+}
+
+func (s *kvContact) boot() error {
+	s.uuid = nil
+	s.num = map[string]int{}
+	for i := range s.shadow {
+		s.shadow[i] = map[int]*kvContactObj{}
+	}
+	if kvContactConnected {
+		alertsHandler.Disconnect() // the previous line's database
+	}
+	if err := alertsHandler.ConnectSiglensDB(); err != nil {
+		return err
+	}
+	kvContactConnected = true
+	return alertsHandler.VerifTuneDB()
+}
+
+var kvContactConnected bool
+
+func (s *kvContact) restart() error {
+	alertsHandler.Disconnect()
+	if err := alertsHandler.ConnectSiglensDB(); err != nil {
+		return err
+	}
+	return alertsHandler.VerifTuneDB()
+}
+
+func (s *kvContact) ref(n int) string {
+	if n >= 1 && n <= len(s.uuid) {
+		return s.uuid[n-1]
+	}
+	return fmt.Sprintf("00000000-0000-4000-8000-%012d", n)
+}
+
+func kvContactSlack(v string) []alertutils.SlackTokenConfig {
+	var out []alertutils.SlackTokenConfig
+	for _, p := range strings.Split(v, ",") {
+		if p != "" {
+			out = append(out, alertutils.SlackTokenConfig{ChannelId: p, SlToken: "tok-" + p})
+		}
+	}
+	return out
+}
+
+func kvContactErr(err error) string {
+	if err == nil {
+		return "ok"
+	}
+	m := err.Error()
+	switch {
+	case strings.Contains(m, "does not exist"):
+		return "nf"
+	case strings.Contains(m, "UNIQUE constraint failed"), strings.Contains(m, "already exist"):
+		return "ex"
+	case strings.Contains(m, "invalid contact id"), strings.Contains(m, "is not Valid"):
+		return "inv"
+	case strings.Contains(m, "UpdateContactPoint: unable to update contact"):
+		return "fail" // the gorm Save failed (the message prints a nil error; the cause is the UNIQUE contact_name)
+	}
+	return "err:" + strings.ReplaceAll(trunc(m, 200), " ", "_")
+}
+
+func kvContactShow(name, pager string, slack []string) string {
+	sort.Strings(slack)
+	return fmt.Sprintf("name=%q pager=%q slack=[%s]", name, pager, strings.Join(slack, " "))
+}
+
+func (s *kvContact) shadowOf(t int) map[string]string {
+	m := map[string]string{}
+	for id, o := range s.shadow[t] {
+		var sl []string
+		for _, c := range kvContactSlack(o.v) {
+			sl = append(sl, c.ChannelId+"/"+c.SlToken)
+		}
+		m[fmt.Sprintf("#%d", id)] = kvContactShow(o.name, o.v, sl)
+	}
+	return m
+}
+
+func (s *kvContact) readAll(t int) (map[string]string, error) {
+	cs, err := alertsHandler.VerifGetAllContacts(kvOrgs[t])
+	if err != nil {
+		return nil, err
+	}
+	m := map[string]string{}
+	for _, c := range cs {
+		var sl []string
+		for _, x := range c.Slack {
+			sl = append(sl, x.ChannelId+"/"+x.SlToken)
+		}
+		n, ok := s.num[c.ContactId]
+		key := fmt.Sprintf("#%d", n)
+		if !ok {
+			key = "unknown id " + c.ContactId
+		}
+		m[key] = kvContactShow(c.ContactName, c.PagerDuty, sl)
+	}
+	return m, nil
+}
+
+func (s *kvContact) owner(id int) int {
+	for t := range s.shadow {
+		if s.shadow[t][id] != nil {
+			return t
+		}
+	}
+	return -1
+}
+
+func (s *kvContact) apply(op kvOp) string {
+	org := kvOrgs[op.t]
+	switch op.kind {
+	case 'c':
+		c := &alertutils.Contact{ContactName: op.k, PagerDuty: op.v, Slack: kvContactSlack(op.v), OrgId: org}
+		err := alertsHandler.VerifCreateContact(c)
+		if err != nil {
+			return kvContactErr(err)
+		}
+		if c.ContactId == "" {
+			// acknowledged without an id: nothing was created. The keyed store must show what it acknowledged.
+			kvCurRun.fail("create-ok-but-not-stored", fmt.Sprintf("CreateContact(name %q, org %d) returned success but created nothing (a contact with this name exists, in whatever org)", op.k, org))
+			return "ok:-"
+		}
+		s.uuid = append(s.uuid, c.ContactId)
+		n := len(s.uuid)
+		s.num[c.ContactId] = n
+		s.shadow[op.t][n] = &kvContactObj{name: op.k, v: op.v}
+		return fmt.Sprintf("ok:%d", n)
+	case 'u':
+		c := &alertutils.Contact{ContactId: s.ref(op.id), ContactName: op.k, PagerDuty: op.v, Slack: kvContactSlack(op.v), OrgId: org}
+		err := alertsHandler.VerifUpdateContact(c)
+		if err == nil {
+			if ow := s.owner(op.id); ow == op.t {
+				s.shadow[ow][op.id] = &kvContactObj{name: op.k, v: op.v}
+			} else if ow >= 0 {
+				kvCurRun.fail("foreign-tenant-write", fmt.Sprintf("UpdateContactPoint(#%d) by org %d succeeded on the contact of org %d (which moves to org %d)", op.id, org, kvOrgs[ow], org))
+				kvCurRun.tainted[ow], kvCurRun.tainted[op.t] = true, true
+			}
+		}
+		return kvContactErr(err)
+	case 'd':
+		err := alertsHandler.VerifDeleteContact(s.ref(op.id))
+		if err == nil {
+			if ow := s.owner(op.id); ow == op.t {
+				delete(s.shadow[ow], op.id)
+			} else if ow >= 0 {
+				kvCurRun.fail("foreign-tenant-write", fmt.Sprintf("DeleteContactPoint(#%d) by org %d succeeded on the contact of org %d", op.id, org, kvOrgs[ow]))
+				kvCurRun.tainted[ow], kvCurRun.tainted[op.t] = true, true
+			}
+		}
+		return kvContactErr(err)
+	case 'l':
+		cs, err := alertsHandler.VerifGetAllContacts(org)
+		if err != nil {
+			return kvContactErr(err)
+		}
+		var rows []string
+		for _, c := range cs {
+			var sl []string
+			for _, x := range c.Slack {
+				sl = append(sl, kvHex(x.ChannelId))
+			}
+			rows = append(rows, fmt.Sprintf("%d/%s/%s/%s", s.num[c.ContactId], kvHex(c.ContactName), kvHex(c.PagerDuty), kvSortedJoin(sl, "+")))
+		}
+		return "[" + kvSortedJoin(rows, ",") + "]"
+	}
+	return "bad-op"
+}
+
+func genContactLine(r *rand.Rand) string {
+	names := []string{"ops", "Ops", "ops ", "on call", "ünï", "日本", "a,b", "\"q\"", "x'y", "%", "_", "null"}
+	if r.Intn(10) == 0 {
+		names = append(names, kvLongName(r, "contact"))
+	}
+	r.Shuffle(len(names), func(i, j int) { names[i], names[j] = names[j], names[i] })
+	pool := names[:2+r.Intn(5)]
+	if r.Intn(20) == 0 {
+		pool = append(pool, "")
+	}
+	vals := []string{"", "", "c1", "c1,c2", "c2", "ünï,c1", ",", "c3,,c4", "x y"}
+	nt := []int{1, 2, 2, 3}[r.Intn(4)]
+	tperm := r.Perm(3)[:nt]
+	nops := 1 + r.Intn(30)
+	pR := []int{0, 4, 10}[r.Intn(3)]
+	pForeign := []int{0, 0, 10}[r.Intn(3)]
+	pDup := []int{0, 10, 30}[r.Intn(3)]
+	created := []int{} // tenant of the n-th contact (a guess: duplicate names are not created)
+	usedNames := map[string]bool{}
+	var ops []string
+	pickID := func(t int) int {
+		var c []int
+		for i, ct := range created {
+			if ct == t || r.Intn(100) < pForeign {
+				c = append(c, i+1)
+			}
+		}
+		if len(c) == 0 || r.Intn(15) == 0 {
+			return len(created) + 1 + r.Intn(2)
+		}
+		return c[r.Intn(len(c))]
+	}
+	for j := 0; j < nops; j++ {
+		t := tperm[r.Intn(nt)]
+		if r.Intn(100) < pR {
+			ops = append(ops, "R")
+			continue
+		}
+		x := r.Intn(100)
+		switch {
+		case x < 35:
+			name := kvPick(r, pool)
+			if usedNames[name] && r.Intn(100) >= pDup {
+				name = fmt.Sprintf("%s-%d", name, j)
+			}
+			ops = append(ops, fmt.Sprintf("c%d.%s=%s", t, kvHex(name), kvHex(kvPick(r, vals))))
+			if !usedNames[name] {
+				usedNames[name] = true
+				created = append(created, t)
+			}
+		case x < 60:
+			name := kvPick(r, pool)
+			if r.Intn(100) >= pDup {
+				name = fmt.Sprintf("%s-u%d", name, j)
+			}
+			ops = append(ops, fmt.Sprintf("u%d.%d=%s:%s", t, pickID(t), kvHex(name), kvHex(kvPick(r, vals))))
+			usedNames[name] = true
+		case x < 75:
+			ops = append(ops, fmt.Sprintf("d%d.%d", t, pickID(t)))
+		default:
+			ops = append(ops, fmt.Sprintf("l%d", t))
+		}
+	}
+	return "kv contact " + strings.Join(ops, " ")
+}
+
+// ---------------------------------------------------------------- lookup files
+
+// kvLookup drives pkg/lookups through its HTTP handlers (multipart upload in an in-memory RequestCtx). The
+// handlers take no org id: one name space, tenant digit 0 only.
+//   c0.<name>=<content> UploadLookupFile   u0.… with overwrite=true   C0/U0: the uploaded file is a .csv.gz
+//   g0.<name> GetLookupFile   d0.<name> DeleteLookupFile   l0 GetAllLookupFiles
+type kvLookup struct {
+	shadow map[string]string
+}
+
+func kvSimpleName(n string) bool {
+	return n != "" && n != "." && n != ".." && !strings.ContainsAny(n, "/\\")
+}
+
+func (s *kvLookup) parse(tok string) (kvOp, bool) {
+	if tok == "R" {
+		return kvOp{kind: 'R', form: 'R'}, true
+	}
+	if tok == "l0" {
+		return kvOp{kind: 'l', form: 'l'}, true
+	}
+	if len(tok) < 3 || tok[1] != '0' || tok[2] != '.' {
+		return kvOp{}, false
+	}
+	op := kvOp{kind: tok[0]}
+	rest := tok[3:]
+	var ok bool
+	switch op.kind {
+	case 'c', 'u', 'C', 'U':
+		k, v, ok2 := kvSplit1(rest, "=")
+		if !ok2 {
+			return kvOp{}, false
+		}
+		if op.k, ok = kvHexLower(k); !ok {
+			return kvOp{}, false
+		}
+		if op.v, ok = kvHexLower(v); !ok {
+			return kvOp{}, false
+		}
+	case 'g', 'd':
+		if op.k, ok = kvHexLower(rest); !ok || !kvSimpleName(op.k) {
+			return kvOp{}, false
+		}
+	default:
+		return kvOp{}, false
+	}
+	return op, true
+}
+
+func (s *kvLookup) boot() error    { s.shadow = map[string]string{}; return nil }
+func (s *kvLookup) restart() error { return nil } // nothing is held in memory
+
+func (s *kvLookup) shadowOf(t int) map[string]string {
+	if t != 0 {
+		return map[string]string{}
+	}
+	return s.shadow
+}
+
+func (s *kvLookup) readAll(t int) (map[string]string, error) {
+	m := map[string]string{}
+	if t != 0 {
+		return m, nil
+	}
+	ctx := kvCtx(nil, nil)
+	lookups.GetAllLookupFiles(ctx)
+	if ctx.Response.StatusCode() != 200 {
+		return nil, fmt.Errorf("GetAllLookupFiles: status %d", ctx.Response.StatusCode())
+	}
+	var names []string
+	if err := json.Unmarshal(ctx.Response.Body(), &names); err != nil {
+		return nil, err
+	}
+	for _, n := range names {
+		c := kvCtx(nil, map[string]string{"lookupFilename": n})
+		lookups.GetLookupFile(c)
+		if c.Response.StatusCode() != 200 {
+			m[n] = fmt.Sprintf("listed but get answers %d", c.Response.StatusCode())
+			continue
+		}
+		m[n] = string(c.Response.Body())
+	}
+	return m, nil
+}
+
+func (s *kvLookup) apply(op kvOp) string {
+	switch op.kind {
+	case 'c', 'u', 'C', 'U':
+		var buf bytes.Buffer
+		w := multipart.NewWriter(&buf)
+		_ = w.WriteField("name", op.k)
+		if op.kind == 'u' || op.kind == 'U' {
+			_ = w.WriteField("overwrite", "true")
+		}
+		fn := "upload.csv"
+		if op.kind == 'C' || op.kind == 'U' {
+			fn = "upload.CSV.gz"
+		}
+		fw, _ := w.CreateFormFile("file", fn)
+		_, _ = fw.Write([]byte(op.v))
+		_ = w.Close()
+		ctx := &fasthttp.RequestCtx{}
+		ctx.Request.Header.SetMethod("POST")
+		ctx.Request.Header.SetContentType(w.FormDataContentType())
+		ctx.Request.SetBody(buf.Bytes())
+		lookups.UploadLookupFile(ctx)
+		body := string(ctx.Response.Body())
+		switch ctx.Response.StatusCode() {
+		case 200:
+			const pre = "File uploaded successfully: "
+			if !strings.HasPrefix(body, pre) {
+				return "err:answer"
+			}
+			stored := strings.TrimPrefix(body, pre)
+			s.shadow[stored] = op.v
+			return "ok:" + kvHex(stored)
+		case 409:
+			return "ex"
+		case 400:
+			return "inv"
+		}
+		return fmt.Sprintf("err%d", ctx.Response.StatusCode())
+	case 'g':
+		ctx := kvCtx(nil, map[string]string{"lookupFilename": op.k})
+		lookups.GetLookupFile(ctx)
+		switch ctx.Response.StatusCode() {
+		case 200:
+			return "=" + kvHex(string(ctx.Response.Body()))
+		case 404:
+			return "nf"
+		}
+		return fmt.Sprintf("err%d", ctx.Response.StatusCode())
+	case 'd':
+		ctx := kvCtx(nil, map[string]string{"lookupFilename": op.k})
+		lookups.DeleteLookupFile(ctx)
+		switch ctx.Response.StatusCode() {
+		case 200:
+			delete(s.shadow, op.k)
+			return "ok"
+		case 404:
+			return "nf"
+		}
+		return fmt.Sprintf("err%d", ctx.Response.StatusCode())
+	case 'l':
+		ctx := kvCtx(nil, nil)
+		lookups.GetAllLookupFiles(ctx)
+		var names []string
+		if ctx.Response.StatusCode() != 200 || json.Unmarshal(ctx.Response.Body(), &names) != nil {
+			return fmt.Sprintf("err%d", ctx.Response.StatusCode())
+		}
+		var hs []string
+		for _, n := range names {
+			hs = append(hs, kvHex(n))
+		}
+		return "[" + kvSortedJoin(hs, ",") + "]"
+	}
+	return "bad-op"
+}
+
+func genLookupLine(r *rand.Rand) string {
+	names := []string{"a", "a.csv", "A.CSV", "a.Csv", "a.csv.gz", "a.gz", "ab", "a b", "ünï", "日本.csv", "x.json", ".csv", "csv", "a.csv.", "a..csv", "q.1", "%2e", "\"q\"", "a.CSV.GZ", "..a"}
+	if r.Intn(10) == 0 {
+		names = append(names, kvLongName(r, "alias"))
+	}
+	r.Shuffle(len(names), func(i, j int) { names[i], names[j] = names[j], names[i] })
+	pool := names[:2+r.Intn(5)]
+	if r.Intn(12) == 0 {
+		pool = append(pool, []string{"", ".", "..", "a/b", "a\\b"}[r.Intn(5)])
+	}
+	contents := []string{"", "k,v\n1,2\n", "x", "ünï,1\n", "a,b\r\n", "\x00\x01\xff", "k\n" + strings.Repeat("row\n", 50)}
+	nops := 1 + r.Intn(30)
+	pR := []int{0, 5}[r.Intn(2)]
+	var stored []string
+	var ops []string
+	for j := 0; j < nops; j++ {
+		if r.Intn(100) < pR {
+			ops = append(ops, "R")
+			continue
+		}
+		x := r.Intn(100)
+		switch {
+		case x < 40:
+			n := kvPick(r, pool)
+			ops = append(ops, fmt.Sprintf("%s0.%s=%s", []string{"c", "c", "u", "u", "C", "U"}[r.Intn(6)], kvHex(n), kvHex(kvPick(r, contents))))
+			if kvSimpleName(n) {
+				stored = append(stored, n, n+".csv", n+".csv.gz")
+			}
+		case x < 60, x < 80:
+			n := kvPick(r, pool)
+			if len(stored) > 0 && r.Intn(3) > 0 {
+				n = stored[r.Intn(len(stored))]
+			}
+			if !kvSimpleName(n) {
+				n = "a"
+			}
+			ops = append(ops, fmt.Sprintf("%s0.%s", []string{"g", "d"}[x/60%2], kvHex(n)))
+		default:
+			ops = append(ops, "l0")
+		}
+	}
+	return "kv lookup " + strings.Join(ops, " ")
 }
